@@ -241,6 +241,30 @@ def run(ctx):
             ctx.violation("load:descriptor-leak", "loading credentials (accepted and refused ones) leaves file descriptors open: %s before/after [%s]" % (f.get("fds"), line), rep)
         else:
             ctx.cell("load:%s:same-as-written:bad-ones-refused:no-descriptor-left" % proto)
+    # ---- tls_record_recv against a peer that delivers a record in pieces and closes (blocking and non-blocking reader):
+    # the call comes back within a bounded time, 1 only for a complete record
+    rr = core.Rng(ctx.seed * 13 + 3)
+    rcases = []
+    for n in ([10, 300] if ctx.tier != "thorough" else [0, 1, 10, 300, 16384]):
+        rec = bytes([23, 3, 3]) + n.to_bytes(2, "big") + rr.bytes(n)
+        tot = len(rec)
+        splits = {(0, 0), (1, 0), (4, 0), (5, 0), (5, 1), (5, max(0, n - 1)), (5, n), (3, 2), (3, n + 2), (2, max(0, n)), (tot, 0), (6, 0), (tot - 1, 0), (tot - 1, 1)}
+        for (a, b) in sorted(splits):
+            if a + b <= tot and a >= 0 and b >= 0:
+                for nb in (0, 1):
+                    rcases.append(("rrclose %d %s %d %d" % (nb, rec.hex(), a, b), "rrclose:%s:%s" % ("nonblocking" if nb else "blocking", "complete" if a + b == tot else ("closed-in-header" if a + b < 5 else "closed-in-body")), a + b == tot))
+    routs, _ = core.run_lines(exe, [c[0] for c in rcases], shards=len(rcases))
+    for (line, cell, complete), out in zip(rcases, routs):
+        ctx.cov["evaluations"] += 1
+        ctx.count("op:rrclose")
+        rep = {"kind": "failing-input", "op": line[:400], "impl": out[:300], "variant": "asan"}
+        f = fields(out) if "=" in out else {}
+        if out.startswith("HANG") or "TIMEOUT" in out or not f:
+            ctx.violation("rrclose:does-not-return", "tls_record_recv did not come back after the peer closed the connection inside a record (%s) [%s]" % (out[:60], line[:80]), rep)
+        elif (f.get("ret") == "1") != complete or (complete and f.get("len") != str(len(line.split()[2]) // 2)) or f.get("ret") == "-11":
+            ctx.violation(cell + ":wrong-result", "tls_record_recv: %s for a record delivered %s [%s]" % (out[:60], "completely" if complete else "in part before the close", line[:80]), rep)
+        else:
+            ctx.cell(cell + ":ret=" + f["ret"])
     # ---- sessions
     cases = hs_cases(ctx)
     cases += leading_zero_cases(ctx, exe)
